@@ -617,7 +617,13 @@ def check_fill(prop: str, res: Result, repo: Repo):
     else:
         res.fail(rule, finding(prop, rule, fm, inits[0] if inits else fn, "the fill scan must start at the first pair of the rebuilt list (cursor = 1); starting later skips gaps at the join with earlier candles", construct=f"fill cursor init {ast.unparse(inits[0].value) if inits else '?'}"))
     incs = [n for n in ast.walk(fn) if isinstance(n, ast.AugAssign) and ast.unparse(n.target) == cursor]
-    if len(incs) == 1 and isinstance(incs[0].op, ast.Add) and ast.unparse(incs[0].value) == "1":
+    incs += [n for n in ast.walk(fn) if isinstance(n, ast.Assign) and ast.unparse(n.targets[0]) == cursor and n not in inits]
+    def _plus_one(n):
+        if isinstance(n, ast.AugAssign):
+            return isinstance(n.op, ast.Add) and ast.unparse(n.value) == "1"
+        v = n.value
+        return isinstance(v, ast.BinOp) and isinstance(v.op, ast.Add) and {ast.unparse(v.left), ast.unparse(v.right)} == {cursor, "1"}
+    if len(incs) == 1 and _plus_one(incs[0]):
         res.ok(rule, {"site": fm.where, "cursor": "+= 1 per iteration (an inserted candle becomes the next 'previous')"})
     else:
         res.fail(rule, finding(prop, rule, fm, fn, "the fill cursor must advance by exactly one per iteration", construct="fill cursor increment"))
